@@ -147,6 +147,23 @@ def gen_case(rng, *, full_model=True, penalties=True, weights=True, two_groups=T
                 giv = [] if rng.random() < 0.4 else [_iv(rng, grid, allow_rev=True, on_points=d["axis"])]
                 miv = [] if rng.random() < 0.5 else [_iv(rng, grid, allow_rev=True, on_points=list(range(len(d["data"]))))]
                 case["weights"].append({"datasets": [d["label"]], "givs": giv, "mivs": miv, "value": 2})
+    # alignment tolerance 1 (grid spacing) for linked groups: points one step apart are merged onto the earlier dataset's point
+    if not case["penalties"] and not case["weights"] and rng.random() < 0.25:
+        case["tol"] = 1
+        case["method"] = "nearest"
+        # near misses: later datasets of a group sit one step beside the first one's points (several datasets may want to merge onto the same point)
+        for g in groups:
+            ds = [d for d in datasets if d["group"] == g["label"]]
+            base = ds[0]["axis"]
+            for d in ds[1:]:
+                if len(d["axis"]) == len(base) and max(base) < 4 and rng.random() < 0.6:
+                    d["axis"] = [a + 1 for a in base]
+    # descending global axes (e.g. wavenumbers): every array stays on the dataset's own coordinates.  Interval slicing (model weights,
+    # penalty areas) is specified for increasing axes only (C08), so such items are not combined with a descending axis.
+    if not case["penalties"] and not case["weights"]:
+        for d in datasets:
+            if len(d["axis"]) > 1 and rng.random() < 0.2:
+                d["axis"] = d["axis"][::-1]
     return case
 
 
@@ -166,6 +183,7 @@ def to_tlc_groups(case):
         ds = [d for d in case["datasets"] if d["group"] == g["label"]]
         out.append({
             "link": "auto" if g["link"] is None else ("true" if g["link"] else "false"),
+            "tol": int(case.get("tol", 0)),
             "residual_function": g.get("residual_function", "variable_projection"),
             "datasets": [{"label": d["label"], "axis": d["axis"], "maxis": d.get("maxis") or [], "data": d["data"], "scale": d.get("scale", 1),
                           "weight": d.get("weight") or [], "simclp": d.get("simclp") or [],
@@ -235,13 +253,20 @@ def area(terms):
     return sum((Fraction(n, d) for n, d in terms), Fraction(0))
 
 
-def expected_penalty_vector(exp_groups):
-    """Exact penalty vector (list of Fractions) with provenance tags, in the documented order."""
+def expected_penalty_vector(exp_groups, aligned_orders=None):
+    """Exact penalty vector (list of Fractions) with provenance tags, in the documented order.
+    aligned_orders[gi]: for a linked group the order in which the implementation walks the aligned axis (the property does
+    not fix it: each aligned point once); default ascending."""
     vec = []
     tags = []
     add = []
     for gi, e in enumerate(exp_groups):
-        for b in e["blocks"]:
+        blocks = e["blocks"]
+        if aligned_orders and aligned_orders.get(gi) is not None and e["linked"]:
+            pos = {float(g): k for k, g in enumerate(aligned_orders[gi])}
+            if sorted(pos) == sorted(float(b["g"]) for b in blocks):
+                blocks = sorted(blocks, key=lambda b: pos[float(b["g"])])
+        for b in blocks:
             pos = 0
             for (k, li, nrows) in b["members"]:
                 for r in range(nrows):
@@ -311,3 +336,21 @@ def enum_core(workers=16, timeout=3000):
         outs = list(ex.map(one, shards))
     items = [x for o in outs for x in o]
     return res, [(from_tlc_case(x["case"]), [x["exp"]]) for x in items]
+
+
+def alignment_family():
+    """Every triple of small global axes for three linked datasets with tolerance 1 (one grid step): near misses, chains of merges,
+    points that must merge onto an ALIGNED point and not onto another dataset's raw coordinate."""
+    axes = [[0], [1], [2], [0, 2], [1, 3]]
+    out = []
+    for a in axes:
+        for b in axes:
+            for c in axes:
+                ds = []
+                for k, (lab, ax) in enumerate((("x", a), ("y", b), ("z", c))):
+                    ds.append({"label": lab, "group": "default", "axis": ax, "maxis": [], "scale": 1, "weight": [], "gmcs": [], "transposed": False,
+                               "data": [[[(1 + k + 2 * g) % 5, 3, (2 + k + g) % 5][i] for g in range(len(ax))] for i in range(3)],
+                               "mcs": [{"scale": 1, "labels": ["a"], "idx": False, "cols": [[1, 1, 2]]}]})
+                out.append({"groups": [{"label": "default", "link": True, "residual_function": "variable_projection", "datasets": ["x", "y", "z"], "has_global": False}],
+                            "datasets": ds, "relations": [], "constraints": [], "penalties": [], "weights": [], "tol": 1, "method": "nearest"})
+    return out
